@@ -70,7 +70,7 @@ func newParent(p fw.Property, tier string, seed int64) *fw.Parent {
 		nw = 16
 	}
 	return &fw.Parent{Prop: p, Tier: tier, Seed: seed, Self: self, RaceBin: os.Getenv("VCHECK_RACE_BIN"),
-		VerifDir: vd, WorkDir: wd, Workers: nw, HangCPU: map[string]float64{"quick": 60, "thorough": 120}[tier], Start: time.Now(), ExtraCov: map[string]any{}}
+		VerifDir: vd, WorkDir: wd, Workers: nw, HangCPU: map[string]float64{"quick": 60, "thorough": 120}[tier], Start: time.Now(), ExtraCov: map[string]any{}, MaxRSSMiB: 6144}
 }
 
 func run(args []string) int {
